@@ -34,7 +34,13 @@ ASSUMPTIONS = [
 CTXS = prog.CLS_NAMES
 OLD_SPECS = {"plain": ["tbl", "t1", None, None], "aliased": ["tbl", "t1", None, "oo"], "schema": ["tbl", "t1", "s1", None]}
 NEW_SPECS = {"plain": ["tbl", "n9", None, None], "aliased": ["tbl", "n9", None, "nn"], "schema": ["tbl", "n9", "s9", None]}
-PAIRS = [("plain", "plain"), ("plain", "aliased"), ("aliased", "plain"), ("schema", "plain"), ("plain", "schema"), ("aliased", "aliased")]
+PAIRS = [("plain", "plain"), ("plain", "aliased"), ("aliased", "plain"), ("schema", "plain"), ("plain", "schema"), ("aliased", "aliased"), ("temporal", "temporal")]
+# "temporal": the statement reads the old table through a temporal clause (t1 FOR SYSTEM_TIME ..), the call names the plain tables:
+# the same construction with the new table reads n9 through that clause
+_FOR = {"for": ["between", ["systime"], ["raw", "2020-01-01"], ["raw", "2020-02-01"]]}
+OLD_SPECS["temporal"] = ["tbl", "t1", None, None, _FOR]
+NEW_SPECS["temporal"] = ["tbl", "n9", None, None, _FOR]
+CALL_SPECS = {"temporal": (["tbl", "t1", None, None], ["tbl", "n9", None, None])}
 
 
 def sources(old_kind):
@@ -97,7 +103,8 @@ def compare(p, old_kind, new_kind, root_is_term):
         expect = prog.build_program(prog_full, subst={"T": new_spec})
     except Exception:
         return [("__build__", "")]
-    env = prog.Env("generic", {"T": OLD_SPECS[old_kind], "N": new_spec})
+    call_old, call_new = CALL_SPECS.get(old_kind, (OLD_SPECS[old_kind], None))[0], CALL_SPECS.get(new_kind, (None, new_spec))[1]
+    env = prog.Env("generic", {"T": call_old, "N": call_new})
     old, new = env.src("T"), env.src("N")
     cname = type(recv).__name__
     before = snap.render_snapshot(recv, meta=False)
@@ -138,6 +145,9 @@ def compare(p, old_kind, new_kind, root_is_term):
         path, holder = left[0]
         out.append((mksig("kept_old", top_attr(path) if not root_is_term else "term", _base(holder or cname)),
                     "a reference to the old table survives at %s (held by %s): under %s replace_table gives %r, building with the new table gives %r" % (path, holder, differs[0], differs[1], differs[2])))
+    elif differs and old_kind == "temporal" and "FOR SYSTEM_TIME" in (differs[2] or "") and "FOR SYSTEM_TIME" not in (differs[1] or ""):
+        # one root cause wherever the source stands: the temporal clause of the replaced source is gone
+        out.append((mksig("temporal_clause_dropped"), "under %s: replace_table gives %r, building with the new table gives %r" % differs))
     elif differs:
         cn, a, b = differs
         out.append((mksig("differs", cname if root_is_term else _kind(p), _first_clause_diff(a, b)), "under %s: replace_table gives %r, building with the new table gives %r" % (cn, a, b)))
